@@ -164,12 +164,15 @@ def spaces(tier, variant, seed):
         if k == "fub":
             f = e["f"]
             # the destination's previous contents must not show through: zero, a full-width all-ones mantissa, a short negative value
+            nl_f = f.s.prec + 1
             if pre == 1:
-                f.set_raw((1 << (64 * (f.s.prec + 1))) - 1, 3, False)
+                f.set_raw((1 << (64 * nl_f)) - 1, 3, False)
             elif pre == 2:
-                f.set_raw(al.M, -2, True)
+                ctypes.memset(f.s.d, 0x5A, 8 * nl_f)
+                f.s.size, f.s.exp = -1, -2
             else:
-                f.set_raw(0, 0, False) if hasattr(f, "set_raw") else None
+                ctypes.memset(f.s.d, 0, 8 * nl_f)          # every limb of the block zero, not only the size field
+                f.s.size, f.s.exp = 0, 0
             f_fub(f.p, p, a)
             v = f.get()
             # (the mpf format of the result is C04's/C13's business, not asserted here)
